@@ -150,7 +150,8 @@ def all_occs(S):
 
 
 def rows(MC):
-    return [[int(m) for m in MC.siteinteract[i][:MC.Ninteract[i]]] for i in range(len(MC.Ninteract))]
+    # (a sampler none of whose sites has an interaction holds an empty 1-D siteinteract array)
+    return [[int(m) for m in MC.siteinteract[i][:n]] if n > 0 else [] for i, n in enumerate(MC.Ninteract)]
 
 
 def intval(x, what="value"):
